@@ -131,8 +131,8 @@ def ab_term() -> str:
     return "[" + "; ".join(f"{CLASS_ID[c]}%Z" for c in sorted(ALTBASE) if c in CLASS_ID) + "]"
 
 
-ALTGC: Dict[str, List[Tuple[int, Any]]] = {}   # class two or more levels below an alternatively mapped class whose mapping renames
-#                                              columns -> [(position in SCAL[class], the constructor default it comes back as)]  (finding C04-d)
+ALTGC: Dict[str, List[Tuple[int, Any]]] = {}   # columns krrood itself loses: class -> [(position in SCAL[class], value it comes back as)];
+#                                              empty since 96f6440 (finding C04-d fixed); kept as the hook for the model's [gc] argument
 
 
 def gc_term() -> str:
@@ -912,7 +912,6 @@ def run(tier: str, seed: int, replay=None) -> int:
     codes: Dict[int, List[int]] = {i: v for (i, _), v in zip(exprs, vals)}
 
     kf_altcycle = 0
-    kf_altgc = 0
     kf_altbase = 0
     c04c_open = any(f.fid == "C04-c" and f.kind == "open" for f in findings)
     stale = 0
@@ -945,10 +944,8 @@ def run(tier: str, seed: int, replay=None) -> int:
             else:
                 stale += 1
             continue
-        if code == 2 and not m["in_f"] and (ft["altcycle"] or ft.get("altgc_objs")):
-            # outside F04w and the implementation fails exactly as the faithful model predicts
-            kf_altcycle += 1 if ft["altcycle"] else 0
-            kf_altgc += 1 if ft.get("altgc_objs") else 0
+        if code == 2 and not m["in_f"] and ft["altcycle"]:
+            kf_altcycle += 1        # C04-a: outside F04w and the implementation fails exactly as the faithful model predicts
             continue
         if c04c_open and ft["altbase_objs"] >= 2 and "_objs" in res and py_iso(res["_objs"][0], res["_objs"][1], relax_altbase=True) is None:
             kf_altbase += 1          # finding C04-c (not modelled: DAO below an alternatively mapped DAO); narrow matcher above
@@ -958,7 +955,7 @@ def run(tier: str, seed: int, replay=None) -> int:
         rep.note(f"{stale} cases outside F04 where impl = spec but the model predicts a failure (model inexact / finding repaired)")
     dist["generated_models"] = gdist
     rep.extra["distribution"] = dist
-    rep.extra["known_finding_instances"] = {"C04-a": kf_altcycle, "C04-c": kf_altbase, "C04-d": kf_altgc}
+    rep.extra["known_finding_instances"] = {"C04-a": kf_altcycle, "C04-c": kf_altbase}
     rep.samples = [{"case": m["descr"], "features": m["ft"]} for m in metas[:: max(1, len(metas) // 5)]][:5]
 
     for m, why in bad[:5]:
